@@ -155,6 +155,7 @@ fn op_kind(op: &Op) -> &'static str {
         Op::ModAck { .. } => "ModAck",
         Op::StreamOpen { .. } => "StreamOpen",
         Op::StreamSend { .. } => "StreamSend",
+        Op::SleepUntilLeaseEnd { .. } => "SleepUntilLeaseEnd",
         Op::StreamCloseReq { .. } => "StreamCloseReq",
         Op::StreamDrop { .. } => "StreamDrop",
         Op::EndpointFaultsOff => "EndpointFaultsOff",
